@@ -38,10 +38,39 @@ pub fn rx_of(c: &OpCase) -> Rx {
     serde_json::from_str(&c.big[0]).unwrap_or_default()
 }
 
+/// The parsing library the chip is configured with: the expression under test under a
+/// drawn index, next to companions (among them an automaton without transitions and
+/// one-state automata) under indices below and above it. `code` = 0: the expression alone
+/// under index 0.
+pub fn rx_library(r: &Rx, code: u64) -> (usize, Vec<(usize, Rx)>) {
+    if code == 0 {
+        return (0, vec![(0, r.clone())]);
+    }
+    let ti = [0usize, 1, 2, 7, 100][(code % 5) as usize];
+    let pool = [
+        Rx::Eps,
+        Rx::Bytes(vec![b'a']),
+        Rx::Star(Box::new(Rx::Bytes((b'0'..=b'9').collect()))),
+        Rx::Cat(vec![Rx::Word("ab".into()), Rx::Opt(Box::new(Rx::Bytes(vec![b'c'])))]),
+    ];
+    let slots = [ti ^ 1, ti + 2, ti + 64, (ti + 3) * 13];
+    let mut lib = vec![(ti, r.clone())];
+    for j in 0..4 {
+        if (code >> (3 + j)) & 1 == 1 {
+            lib.push((slots[j], pool[((code >> 8) as usize + j) % pool.len()].clone()));
+        }
+    }
+    (ti, lib)
+}
+
 pub fn rx_case(r: &Rx, word: &[u8]) -> OpCase {
+    rx_case_in(r, word, 0)
+}
+
+pub fn rx_case_in(r: &Rx, word: &[u8], library: u64) -> OpCase {
     OpCase {
         op: "rx.parse".into(),
-        p: vec![word.len() as u64],
+        p: vec![word.len() as u64, library],
         big: vec![serde_json::to_string(r).unwrap()],
         ins: word.iter().map(|b| Fe(Fq::from(*b as u64))).collect(),
         bins: vec![],
@@ -66,22 +95,24 @@ pub struct RxConfig {
 impl Circuit<F> for RxCircuit {
     type Config = RxConfig;
     type FloorPlanner = SimpleFloorPlanner;
-    type Params = Rx;
+    type Params = (Rx, u64);
 
     fn without_witnesses(&self) -> Self {
         RxCircuit { case: self.case.clone(), known: false }
     }
-    fn params(&self) -> Rx {
-        rx_of(&self.case)
+    fn params(&self) -> (Rx, u64) {
+        (rx_of(&self.case), self.case.p.get(1).copied().unwrap_or(0))
     }
-    fn configure_with_params(meta: &mut ConstraintSystem<F>, r: Rx) -> RxConfig {
+    fn configure_with_params(meta: &mut ConstraintSystem<F>, (r, code): (Rx, u64)) -> RxConfig {
         let advice: [_; NB_ARITH_COLS] = core::array::from_fn(|_| meta.advice_column());
         let fixed: [_; NB_ARITH_FIXED_COLS] = core::array::from_fn(|_| meta.fixed_column());
         let committed = meta.instance_column();
         let plain = meta.instance_column();
         let native = NativeChip::configure(meta, &(advice, fixed, [committed, plain]));
         let mut automata = FxHashMap::default();
-        automata.insert(0usize, r.to_lib().to_automaton());
+        for (i, x) in rx_library(&r, code).1 {
+            automata.insert(i, x.to_lib().to_automaton());
+        }
         let acols: [_; NB_AUTOMATA_COLS] = advice[..NB_AUTOMATA_COLS].try_into().unwrap();
         let automaton = AutomatonChip::<usize, F>::configure(meta, &(acols, automata));
         let p2r = Pow2RangeChip::configure(meta, &advice[1..=4]);
@@ -102,7 +133,8 @@ impl Circuit<F> for RxCircuit {
             let n: AssignedNative<F> = b.into();
             ng.constrain_as_public_input(&mut layouter, &n)?;
         }
-        let markers = chip.parse(&mut layouter, &0usize, &bytes)?;
+        let ti = rx_library(&Rx::Eps, self.case.p.get(1).copied().unwrap_or(0)).0;
+        let markers = chip.parse(&mut layouter, &ti, &bytes)?;
         for m in &markers {
             ng.constrain_as_public_input(&mut layouter, m)?;
         }
